@@ -26,11 +26,15 @@ def main():
     for p in sorted(glob.glob(root + "/C*/*/patch.diff")):
         parts = p.split("/"); seed = parts[-3] + "/" + parts[-2]
         jobs.append((seed, p, ALL if mode == "--all" else [parts[-3]]))
+    if not jobs:      # flat layout <root>/<name>/patch.diff (neutral rewrites, /verif/seeded)
+        for p in sorted(glob.glob(root + "/*/patch.diff")):
+            name = p.split("/")[-2]
+            jobs.append((name, p, ALL if mode == "--all" or not name[:3] in ALL else [name[:3]]))
     results = {}
     with ThreadPoolExecutor(max_workers=14) as ex:
         for seed, res in ex.map(one, jobs):
             results[seed] = res
-            own = seed.split("/")[0]
+            own = seed.split("/")[0][:3]
             fired = [k for k, v in res.items() if isinstance(v, tuple) and v[0] == 1]
             unk = [k for k, v in res.items() if isinstance(v, tuple) and v[0] == 2]
             print(f"{seed}: own={res.get(own, ('?',))[0]} fired={','.join(fired)} unknown={','.join(unk)}", flush=True)
